@@ -1384,6 +1384,10 @@ func main() {
 			decisionFunc("channel/sendinteractive.go", "Channel.sendInteractive"))
 		fmt.Fprintf(&sw, "(* channel/sendinput.go Channel.SendInputB *)\nDefinition send_input_code : list dstmt :=\n  %s.\n",
 			decisionFunc("channel/sendinput.go", "Channel.SendInputB"))
+		fmt.Fprintf(&sw, "(* driver/generic/sendwithcallbacks.go Driver.executeCallback *)\nDefinition execute_callback_code : list dstmt :=\n  %s.\n",
+			decisionFunc("driver/generic/sendwithcallbacks.go", "Driver.executeCallback"))
+		fmt.Fprintf(&sw, "(* driver/generic/sendwithcallbacks.go Driver.handleCallbacks: the scan over the callbacks *)\nDefinition callback_scan_code : dstmt :=\n  %s.\n",
+			nestedRange("driver/generic/sendwithcallbacks.go", "Driver.handleCallbacks", "callbacks"))
 		// the loops that apply an option list to an object (C19)
 		var ol []string
 		for _, lf := range [][2]string{{"driver/generic/driver.go", "NewDriver"}, {"driver/network/driver.go", "NewDriver"}, {"driver/netconf/driver.go", "NewDriver"},
